@@ -3,6 +3,10 @@
 //        h_posit rnd <nbits> <es> <count>  structured random pairs (seed: VERIF_SEED)
 #include <universal/number/posit/posit.hpp>
 #include <cmath>
+#include <vector>
+#include <string>
+#include <fstream>
+#include <sstream>
 #include "proto.hpp"
 
 using namespace sw::universal;
@@ -151,6 +155,21 @@ struct Run {
 		if (all) { for (uint64_t y = 0; y < (1ull << (nbits < 63 ? nbits : 1)); ++y) conv_target(y); conv_fixed(g, 2000); }
 		else { conv_fixed(g, (unsigned)(count / 8)); for (uint64_t i = 0; i < count * (g_from ? 1 : 20); ++i) conv_target(operand(g)); }
 	}
+	// re-execute the inputs of one recorded transcript line (replay / corpus): toks = op and operands
+	static void replay(const std::vector<std::string>& t) {
+		g_arith = g_order = true; g_from = g_to = true;
+		const std::string& op = t[0];
+		auto hx = [&](size_t i) { return i < t.size() ? std::strtoull(t[i].c_str(), nullptr, 16) : 0ull; };
+		if (op == "add" || op == "sub" || op == "mul" || op == "div" || op == "cmp") { binary(hx(1), hx(2)); return; }
+		if (op == "rec" || op == "neg" || op == "abs" || op == "inc" || op == "dec") { unary(hx(1)); return; }
+		if (op == "limits") { limits(); return; }
+		if (op == "fromf64") { from_f64(uv::bits2double(hx(1))); return; }
+		if (op == "fromf32") { from_f32(uv::bits2float((uint32_t)hx(1))); return; }
+		if (op == "fromld") { from_ld(ld_make((unsigned)hx(1), hx(2))); return; }
+		if (op == "fromi") { from_int(hx(2)); return; }
+		if (op == "todbl" || op == "tof32" || op == "told") { to_native(hx(1)); return; }
+		if (op == "toi") { to_native(hx(2)); return; }
+	}
 	static void limits() {
 		using L = std::numeric_limits<P>;
 		std::printf("posit %u %u limits => %llx %llx %llx %llx %llx %llx %d %d %d\n", nbits, es,
@@ -258,7 +277,24 @@ struct Run {
 	X(9,1) X(10,2) X(12,1) X(16,1) X(16,2) X(20,1) X(24,2) X(32,2) X(32,3) X(48,2) X(64,3) X(64,2)
 #endif
 
+static int replay_file(const char* path) {
+	std::ifstream in(path); std::string line;
+	while (std::getline(in, line)) {
+		if (line.empty() || line[0] == '#') continue;
+		std::istringstream ss(line); std::vector<std::string> t; std::string w;
+		while (ss >> w) { if (w == "=>") break; t.push_back(w); }
+		if (t.size() < 4 || t[0] != "posit") continue;
+		unsigned n = (unsigned)std::atoi(t[1].c_str()), e = (unsigned)std::atoi(t[2].c_str());
+		std::vector<std::string> rest(t.begin() + 3, t.end());
+#define X(N,E) if (n == N && e == E) { Run<N,E>::replay(rest); continue; }
+		CONFIGS(X)
+#undef X
+	}
+	return 0;
+}
+
 int main(int argc, char** argv) {
+	if (argc == 3 && std::string(argv[1]) == "file") { uv::Out out; return replay_file(argv[2]); }
 	if (argc < 4) { std::fprintf(stderr, "usage: h_posit exh|rnd nbits es [count] [all|arith|order]\n"); return 2; }
 	uv::Out out;
 	std::string mode = argv[1];
